@@ -686,7 +686,8 @@ static URI_INLINE int URI_FUNC(NormalizeSyntaxEngine)(URI_TYPE(Uri) * uri,
 	} else if (inMask & URI_NORMALIZE_PATH) {
 		URI_TYPE(PathSegment) * walker;
 		const UriBool relative = ((uri->scheme.first == NULL)
-				&& !uri->absolutePath) ? URI_TRUE : URI_FALSE;
+				&& !uri->absolutePath
+				&& !URI_FUNC(IsHostSet)(uri)) ? URI_TRUE : URI_FALSE;
 
 		/* Fix percent-encoding for each segment */
 		walker = uri->pathHead;
